@@ -14,8 +14,15 @@
    comparisons (flag `conv`).  Machine integers are explicit (c16_wrap / c16_sext); a position is a Z holding the
    bit pattern of the C++ member (`size_t position_`, `ptrdiff_t position_`, `T value_`). *)
 From Coq Require Import List ZArith Bool.
+From DuneV Require Import Params_gen.
 Import ListNotations.
 Local Open Scope Z_scope.
+
+(* comparison-operator tables are re-read from the C++ source on every run (tools/params.d/C16.py -> Params_gen.v):
+   code 0: x < y   1: x <= y   2: x > y   3: x >= y *)
+Definition c16_cmp_code (c : nat) (x y : Z) : bool :=
+  match c with 0%nat => x <? y | 1%nat => x <=? y | 2%nat => y <? x | _ => y <=? x end.
+Definition c16_neg_if (c : nat) (d : Z) : Z := match c with 0%nat => d | _ => - d end.
 
 (* ------------------------------------------------------------------ machine integers *)
 Definition c16_wrap (w z : Z) : Z := z mod 2 ^ w.                        (* conversion to an unsigned w-bit type *)
@@ -65,11 +72,17 @@ Section Legacy.
   Context {P V : Type} (pr : c16_prims P V).
   Definition c16_ra_eq (conv : bool) (l r : P) : bool := if conv then c16_p_eq pr l r else c16_p_eq pr r l.
   Definition c16_ra_ne (conv : bool) (l r : P) : bool := if conv then negb (c16_p_eq pr l r) else negb (c16_p_eq pr r l).
-  Definition c16_ra_lt (conv : bool) (l r : P) : bool := if conv then 0 <? c16_p_dist pr l r else c16_p_dist pr r l <? 0.
-  Definition c16_ra_le (conv : bool) (l r : P) : bool := if conv then 0 <=? c16_p_dist pr l r else c16_p_dist pr r l <=? 0.
-  Definition c16_ra_gt (conv : bool) (l r : P) : bool := if conv then c16_p_dist pr l r <? 0 else 0 <? c16_p_dist pr r l.
-  Definition c16_ra_ge (conv : bool) (l r : P) : bool := if conv then c16_p_dist pr l r <=? 0 else 0 <=? c16_p_dist pr r l.
-  Definition c16_ra_diff (conv : bool) (l r : P) : Z := if conv then - c16_p_dist pr l r else c16_p_dist pr r l.
+  (* `lhs.distanceTo(rhs) OP 0` / `rhs.distanceTo(lhs) OP 0` with the operator tokens of the source *)
+  Definition c16_ra_lt (conv : bool) (l r : P) : bool :=
+    if conv then c16_cmp_code c16_param_ra_lt_conv (c16_p_dist pr l r) 0 else c16_cmp_code c16_param_ra_lt_else (c16_p_dist pr r l) 0.
+  Definition c16_ra_le (conv : bool) (l r : P) : bool :=
+    if conv then c16_cmp_code c16_param_ra_le_conv (c16_p_dist pr l r) 0 else c16_cmp_code c16_param_ra_le_else (c16_p_dist pr r l) 0.
+  Definition c16_ra_gt (conv : bool) (l r : P) : bool :=
+    if conv then c16_cmp_code c16_param_ra_gt_conv (c16_p_dist pr l r) 0 else c16_cmp_code c16_param_ra_gt_else (c16_p_dist pr r l) 0.
+  Definition c16_ra_ge (conv : bool) (l r : P) : bool :=
+    if conv then c16_cmp_code c16_param_ra_ge_conv (c16_p_dist pr l r) 0 else c16_cmp_code c16_param_ra_ge_else (c16_p_dist pr r l) 0.
+  Definition c16_ra_diff (conv : bool) (l r : P) : Z :=
+    if conv then c16_neg_if c16_param_ra_diff_conv_negated (c16_p_dist pr l r) else c16_neg_if c16_param_ra_diff_else_negated (c16_p_dist pr r l).
   (* BidirectionalIteratorFacade: two overloads of ==, != is !(lhs == rhs) *)
   Definition c16_bi_eq (conv : bool) (l r : P) : bool := if conv then c16_p_eq pr l r else c16_p_eq pr r l.
   Definition c16_bi_ne (conv : bool) (l r : P) : bool := negb (c16_bi_eq conv l r).
@@ -110,8 +123,9 @@ Section NewFacade.
   Definition c16_nf_diff (a b : B) : Z := c16_b_sub bs a b.
   Definition c16_nf_ops : c16_ops B W := {|
     c16_o_eq := c16_b_eq bs; c16_o_ne := fun a b => negb (c16_b_eq bs a b);
-    c16_o_lt := fun a b => c16_nf_diff a b <? 0; c16_o_le := fun a b => c16_nf_diff a b <=? 0;
-    c16_o_gt := fun a b => 0 <? c16_nf_diff a b; c16_o_ge := fun a b => 0 <=? c16_nf_diff a b;
+    (* `(derivedIt1 - derivedIt2) OP D1(0)` with the operator tokens of the source *)
+    c16_o_lt := fun a b => c16_cmp_code c16_param_nf_lt (c16_nf_diff a b) 0; c16_o_le := fun a b => c16_cmp_code c16_param_nf_le (c16_nf_diff a b) 0;
+    c16_o_gt := fun a b => c16_cmp_code c16_param_nf_gt (c16_nf_diff a b) 0; c16_o_ge := fun a b => c16_cmp_code c16_param_nf_ge (c16_nf_diff a b) 0;
     c16_o_diff := c16_nf_diff;
     c16_o_inc := c16_nf_inc; c16_o_dec := c16_nf_dec;
     c16_o_plus := c16_nf_plus; c16_o_minus := c16_nf_minus;
@@ -188,6 +202,15 @@ Definition c16_ir_ops (t : c16_ity) (fixed : bool) : c16_ops Z (option Z) :=
   c16_o_pluseq := fun v n => c16_norm t (v + n); c16_o_minuseq := fun v n => c16_norm t (v - n);
   c16_o_index := fun v n => Some (c16_norm t (v + n));
   c16_o_star := fun v => Some v |}.
+(* the class as it stands in the source tree: comparison tokens re-read by tools/params.d/C16.py *)
+Definition c16_ir_ops_src (t : c16_ity) : c16_ops Z (option Z) :=
+  let o := c16_ir_ops t true in {|
+  c16_o_eq := c16_o_eq o; c16_o_ne := c16_o_ne o;
+  c16_o_lt := fun a b => c16_cmp_code c16_param_ir_lt a b; c16_o_le := fun a b => c16_cmp_code c16_param_ir_le a b;
+  c16_o_gt := fun a b => c16_cmp_code c16_param_ir_gt a b; c16_o_ge := fun a b => c16_cmp_code c16_param_ir_ge a b;
+  c16_o_diff := c16_o_diff o; c16_o_inc := c16_o_inc o; c16_o_dec := c16_o_dec o;
+  c16_o_plus := c16_o_plus o; c16_o_minus := c16_o_minus o; c16_o_pluseq := c16_o_pluseq o; c16_o_minuseq := c16_o_minuseq o;
+  c16_o_index := c16_o_index o; c16_o_star := c16_o_star o |}.
 (* true iff operator- as written overflows its signed arithmetic type (UB; wraps on this platform):
    only possible when the subtraction is not done in a wider promoted type, i.e. for widths >= 32 *)
 Definition c16_ir_diff_overflows (t : c16_ity) (a b : Z) : bool :=
@@ -319,8 +342,8 @@ Definition c16_copy {P} (p : P) : P := p.
 (* iterators handed out by DenseVector / DenseMatrix: begin, end, beforeEnd, beforeBegin, find (densevector.hh 347-413) *)
 Definition c16_dense_begin : Z := 0.
 Definition c16_dense_end (n : Z) : Z := c16_wrap 64 n.
-Definition c16_dense_before_end (n : Z) : Z := c16_wrap 64 (n - 1).
-Definition c16_dense_before_begin : Z := c16_wrap 64 (-1).
+Definition c16_dense_before_end (n : Z) : Z := c16_wrap 64 (n - c16_param_dense_before_end_offset).
+Definition c16_dense_before_begin : Z := c16_wrap 64 c16_param_dense_before_begin.
 Definition c16_dense_find (n i : Z) : Z := Z.min (c16_wrap 64 i) n.         (* Iterator(this, std::min(i, size())) *)
 
 (* rangeutilities.hh 36-111: max_value / min_value (std::max_element / min_element), any_true / all_true (loops as written) *)
@@ -349,3 +372,118 @@ Definition c16_iseq_sorted (lt : Z -> Z -> bool) (s : list Z) : list Z := fold_r
 (* Hybrid::max / min with any number of arguments (std::max / std::min over an initializer list) *)
 Definition c16_hy_maxn (x : Z) (xs : list Z) : Z := c16_max_value x xs.
 Definition c16_hy_minn (x : Z) (xs : list Z) : Z := c16_min_value x xs.
+
+(* ================================================================== additions of the proof-deepening round *)
+(* postfix ++ / -- of all facades: `tmp = copy of this; ++ / -- on this; return tmp`  -> (returned value, new value of the object) *)
+Definition c16_post_inc {P V} (o : c16_ops P V) (it : P) : P * P := let tmp := c16_copy it in (tmp, c16_o_inc o it).
+Definition c16_post_dec {P V} (o : c16_ops P V) (it : P) : P * P := let tmp := c16_copy it in (tmp, c16_o_dec o it).
+(* friend operator+(n, it) of the new IteratorFacade and of IntegralRangeIterator: tmp = copy; tmp += n *)
+Definition c16_nplus {P V} (o : c16_ops P V) (n : Z) (it : P) : P := c16_o_pluseq o (c16_copy it) n.
+(* operator->: legacy facades return the address of dereference(); the new facade std::addressof of operator* or a ProxyArrowResult
+   holding its value: in every case the object reached through -> is the object operator* yields *)
+Definition c16_arrow {P V} (o : c16_ops P V) (it : P) : V := c16_o_star o it.
+
+(* iterators that also store the container (DenseIterator, GenericIterator: `C* container_`): equals additionally compares the
+   container pointers; copying / converting mutable -> const copies both members *)
+Definition c16_tag_prims {P V} (pr : c16_prims P V) : c16_prims (Z * P) V := {|
+  c16_p_inc := fun x => (fst x, c16_p_inc pr (snd x));
+  c16_p_dec := fun x => (fst x, c16_p_dec pr (snd x));
+  c16_p_adv := fun n x => (fst x, c16_p_adv pr n (snd x));
+  c16_p_dist := fun a b => c16_p_dist pr (snd a) (snd b);                       (* assert(other.container_==container_) *)
+  c16_p_eq := fun a b => c16_p_eq pr (snd a) (snd b) && (fst a =? fst b);       (* position_ == other.position_ && container_ == other.container_ *)
+  c16_p_deref := fun x => c16_p_deref pr (snd x);
+  c16_p_elt := fun x n => c16_p_elt pr (snd x) n |}.
+Definition c16_convert {P} (x : Z * P) : Z * P := (fst x, snd x).             (* : container_(other.container_), position_(other.position_) *)
+
+(* SLList's three iterator classes (sllist.hh 268-530), positions = node indices *)
+Inductive c16_sl := C16SlIt (cur : Z) | C16SlConst (cur : Z) | C16SlMod (before cur : Z).
+Definition c16_sl_cur (x : c16_sl) : Z := match x with C16SlIt c => c | C16SlConst c => c | C16SlMod _ c => c end.
+Definition c16_sl_class (x : c16_sl) : nat := match x with C16SlIt _ => 0%nat | C16SlConst _ => 1%nat | C16SlMod _ _ => 2%nat end.
+(* converting constructors: SLListConstIterator(const SLListIterator&), (const SLListModifyIterator&); SLListIterator(const SLListModifyIterator&) *)
+Definition c16_sl_to_const (x : c16_sl) : c16_sl := C16SlConst (c16_sl_cur x).
+Definition c16_sl_to_it (x : c16_sl) : c16_sl := match x with C16SlMod _ c => C16SlIt c | _ => x end.
+(* std::is_convertible<T2,T1> by class *)
+Definition c16_sl_convertible (t2 t1 : nat) : bool :=
+  match t2, t1 with
+  | 0%nat, 0%nat | 1%nat, 1%nat | 2%nat, 2%nat => true
+  | 0%nat, 1%nat | 2%nat, 1%nat | 2%nat, 0%nat => true
+  | _, _ => false end.
+(* operator== between SLListIterator and SLListConstIterator operands (needed by SLListModifyIterator::equals, which is written with ==) *)
+Definition c16_sl_eq_basic (l r : c16_sl) : bool :=
+  match l, r with
+  | C16SlIt c, C16SlIt d => c =? d                                   (* lhs.equals(rhs): current_==other.current_ *)
+  | C16SlIt c, C16SlConst d => d =? c16_sl_cur (c16_sl_to_const l)   (* not convertible: rhs.equals(lhs converted to const) *)
+  | C16SlConst c, C16SlIt d => c =? c16_sl_cur (c16_sl_to_const r)   (* convertible: lhs.equals(rhs converted to const) *)
+  | C16SlConst c, C16SlConst d => c =? d
+  | _, _ => false end.
+(* self.equals(arg), the argument converted implicitly where the class has no overload for it *)
+Definition c16_sl_member_equals (self arg : c16_sl) : bool :=
+  match self, arg with
+  | C16SlIt c, C16SlConst d => c =? d
+  | C16SlIt c, C16SlIt d => c =? d
+  | C16SlIt c, C16SlMod _ d => c =? d                                (* current_==other.iterator_.current_ *)
+  | C16SlConst c, _ => c =? c16_sl_cur (c16_sl_to_const arg)         (* only equals(const SLListConstIterator&) exists *)
+  | C16SlMod _ c, C16SlConst _ => c16_sl_eq_basic (C16SlIt c) arg    (* iterator_== other *)
+  | C16SlMod _ c, C16SlIt _ => c16_sl_eq_basic (C16SlIt c) arg       (* iterator_== other *)
+  | C16SlMod _ c, C16SlMod _ d => c16_sl_eq_basic (C16SlIt c) (C16SlIt d)   (* iterator_== other.iterator_ *)
+  end.
+(* ForwardIteratorFacade operator== / operator!= *)
+Definition c16_sl_facade_eq (l r : c16_sl) : bool :=
+  if c16_sl_convertible (c16_sl_class r) (c16_sl_class l) then c16_sl_member_equals l r else c16_sl_member_equals r l.
+Definition c16_sl_facade_ne (l r : c16_sl) : bool :=
+  if c16_sl_convertible (c16_sl_class r) (c16_sl_class l) then negb (c16_sl_member_equals l r) else negb (c16_sl_member_equals r l).
+Definition c16_sl_inc (x : c16_sl) : c16_sl :=
+  match x with C16SlIt c => C16SlIt (c + 1) | C16SlConst c => C16SlConst (c + 1) | C16SlMod b c => C16SlMod (b + 1) (c + 1) end.
+(* begin / end / beginModify / endModify of a list with n nodes: end is the null pointer (index n); beforeHead_ is index -1, tail_ index n-1 *)
+Definition c16_sl_begin_modify : c16_sl := C16SlMod (-1) 0.
+Definition c16_sl_end_modify (n : Z) : c16_sl := C16SlMod (n - 1) n.
+
+(* IndexedIterator<Iter> as an iterator: everything except ++ -- += -= and index() is inherited from Iter and ignores index_.
+   NOTE the inherited `it + n`, `it - n` return the BASE iterator type Iter (c16_idx_plus): the record fields o_plus / o_minus of
+   c16_idx_ops hold the += / -= results, which are the only index-preserving random-access moves the class offers. *)
+Section IndexedOps.
+  Context {P V : Type} (o : c16_ops P V).
+  Definition c16_idx_plus (x : P * Z) (n : Z) : P := c16_o_plus o (fst x) n.
+  Definition c16_idx_minus (x : P * Z) (n : Z) : P := c16_o_minus o (fst x) n.
+  Definition c16_idx_post_inc (x : P * Z) : (P * Z) * (P * Z) := let tmp := c16_copy x in (tmp, c16_idx_inc o x).
+  Definition c16_idx_post_dec (x : P * Z) : (P * Z) * (P * Z) := let tmp := c16_copy x in (tmp, c16_idx_dec o x).
+  Definition c16_idx_ops : c16_ops (P * Z) V := {|
+    c16_o_eq := fun a b => c16_o_eq o (fst a) (fst b); c16_o_ne := fun a b => c16_o_ne o (fst a) (fst b);
+    c16_o_lt := fun a b => c16_o_lt o (fst a) (fst b); c16_o_le := fun a b => c16_o_le o (fst a) (fst b);
+    c16_o_gt := fun a b => c16_o_gt o (fst a) (fst b); c16_o_ge := fun a b => c16_o_ge o (fst a) (fst b);
+    c16_o_diff := fun a b => c16_o_diff o (fst a) (fst b);
+    c16_o_inc := c16_idx_inc o; c16_o_dec := c16_idx_dec o;
+    c16_o_plus := c16_idx_pluseq o; c16_o_minus := c16_idx_minuseq o;
+    c16_o_pluseq := c16_idx_pluseq o; c16_o_minuseq := c16_idx_minuseq o;
+    c16_o_index := fun x n => c16_o_index o (fst x) n;
+    c16_o_star := fun x => c16_o_star o (fst x) |}.
+End IndexedOps.
+
+(* any iterator can serve as baseIterator() of a TransformedRangeIterator *)
+Definition c16_base_of_ops {P V} (o : c16_ops P V) : c16_base P V := {|
+  c16_b_inc := c16_o_inc o; c16_b_dec := c16_o_dec o;
+  c16_b_addeq := fun n p => c16_o_pluseq o p n;
+  c16_b_sub := c16_o_diff o;
+  c16_b_eq := c16_o_eq o;
+  c16_b_deref := c16_o_star o |}.
+(* value transformation f( *it ) and iterator transformation g(it) over an arbitrary underlying iterator *)
+Definition c16_tr_over {P V W} (o : c16_ops P V) (f : V -> W) : c16_ops P W := c16_nf_ops (c16_base_of_ops o) (fun p => f (c16_o_star o p)).
+Definition c16_itr_over {P V W} (o : c16_ops P V) (g : P -> W) : c16_ops P W := c16_nf_ops (c16_base_of_ops o) g.
+(* sparseRange(range) = iteratorTransformedRangeView(range, it -> ( *it, it.index() )) *)
+Definition c16_sparse_over {P V} (o : c16_ops P V) (index : P -> Z) : c16_ops P (V * Z) := c16_itr_over o (fun p => (c16_o_star o p, index p)).
+
+(* IteratorRange<Iterator>: stores (_begin, _end) and hands them back *)
+Definition c16_iterrange {P} (b e : P) : P * P := (b, e).
+Definition c16_iterrange_begin {P} (r : P * P) : P := fst r.
+Definition c16_iterrange_end {P} (r : P * P) : P := snd r.
+Definition c16_range_for {P V} (o : c16_ops P V) (fuel : nat) (r : P * P) : c16_res (list V) :=
+  c16_range_loop o fuel (c16_iterrange_begin r) (c16_iterrange_end r) [].
+
+(* StaticIntegralRange<T,to,from>: operator[](size_type i) is from + static_cast<value_type>(i); the integral_constant overload the same at
+   compile time; size() = static_cast<size_type>(to) - static_cast<size_type>(from) *)
+Definition c16_sirange_at (t : c16_ity) (from i : Z) : Z := c16_norm t (from + c16_norm t i).
+Definition c16_sirange_size (t : c16_ity) (from to : Z) : Z := c16_irange_size t from to.
+
+(* ArrayList::begin() / end(): ArrayListIterator( *this, start_ ) and ( *this, start_ + size_ ) *)
+Definition c16_alist_begin (start : Z) : Z := c16_wrap 64 start.
+Definition c16_alist_end (start size : Z) : Z := c16_wrap 64 (start + size).
